@@ -35,12 +35,13 @@ impl LintPass for OverlappingFunctionCheck {
             previous = current;
             if starts_shared_region || is_shared_entry {
                 let mut funcs = node.functions().clone().into_iter().collect::<Vec<_>>();
-                funcs.sort_by_key(|f| f.name());
+                funcs.sort_by_cached_key(|f| cfg.iter().position(|n| n.id() == f.entry().id()));
 
                 // HACK: Create a dummy label with the same name
-                let mut labels = node.labels().into_iter().collect::<Vec<_>>();
-                labels.sort();
-                let labels = labels
+                // (the first label of the program, so that the location depends neither on how
+                // the labels are spelled nor on the files they are in)
+                let labels = node
+                    .labels_in_order()
                     .iter()
                     .map(|l| Label {
                         name: l.clone(),
